@@ -9,6 +9,7 @@ is one of the derived tables; P6 fields/derived tables are written only in
 set_fields/_finalize_* and never mutated in place; P7 finalize_state runs the
 _finalize_* methods in dependency order.  See EXPLANATION for the induction."""
 import ast
+from .. import symex
 from ..core import (AnalysisError, short, unparse, iter_own, call_name, call_recv, kwarg,
                     is_self_attr, atomic_facts, split_conj, parents, enclosing_stmt, always_exits,
                     const_value)
@@ -119,7 +120,12 @@ def run(ctx):
         p_parent, p_kwargs = fn.args.args[1].arg, fn.args.args[2].arg
         guard = None
         for st in fn.body:
-            if isinstance(st, ast.If) and always_exits(st.body) and not st.orelse:
+            # `if <key unchanged>: <inherit>; return` followed by the recompute code, or the same
+            # decision written as if/else
+            if isinstance(st, ast.If) and ((always_exits(st.body) and not st.orelse) or (
+                    st.orelse and st is fn.body[-1] and any(
+                        isinstance(t_, ast.Compare) and isinstance(t_.ops[0], ast.NotIn)
+                        for t_, _p in split_conj(st.test, True)))):
                 guard = st
                 break
         if guard is None:
@@ -142,7 +148,7 @@ def run(ctx):
                     continue
             other.append((t, pol))
         inherit_stores = _self_attrs_stored(ast.Module(body=guard.body, type_ignores=[]))
-        rest = [s for s in fn.body if s is not guard and s.lineno > guard.lineno]
+        rest = list(guard.orelse) + [s for s in fn.body if s is not guard and s.lineno > guard.lineno]
         rest_mod = ast.Module(body=rest, type_ignores=[])
         recompute_stores = _self_attrs_stored(rest_mod)
         for d in recompute_stores:
@@ -407,7 +413,7 @@ def _check_sub_context(ctx, m, sc):
                            'is not seen by the inherit guards' % short(v),
                            construct='sub_context: changed subset ' + short(v))
     if changed is None:
-        from .. import symex
+        pass
         for lp in [l for l in sc.body if isinstance(l, ast.For) and unparse(l.iter) == kwname + '.items()'
                    and isinstance(l.target, ast.Tuple) and len(l.target.elts) == 2]:
             k, val = [unparse(e) for e in lp.target.elts]
